@@ -25,6 +25,17 @@ CLAIMED = {
         design="4/C03"),
 }
 
+CLAIMED["C01"] = dict(
+    text=("Gallina model of the build-time transformation of __arguments__ into (*args, **kwargs) "
+          "(PyCall.transform_build) composed with a model of CPython call binding (PyCall.py_call), proved "
+          "equal to the reference view (every parameter gets its configured value, else the callee's "
+          "default, else the call fails) for every valid signature and every store satisfying the storage "
+          "invariant; evaluated in Coq against fdl.build on recording callables (6 callable flavours, "
+          "constructor + later edits, all small signature shapes x all subsets of set parameters)."),
+    note=COMMON_NOTE + " inspect.signature is trusted (the model receives the implementation's signature).",
+    technique="Coq proof (binding = reference view) + vm_compute correspondence on recording callables",
+    design="4/C01")
+
 PENDING_REASON = "check not built yet in this session (work in progress; see DESIGN.md section 4)"
 
 
